@@ -230,6 +230,7 @@ func runC08(c *Ctx) {
 	// R-C08-4
 	scheduleExits(c, "R-C08-4")
 	scheduledOnly(c, "R-C08-4")
+	tasksDoNotSchedule(c, "R-C08-4")
 	inFlightAwaited(c, "R-C08-5")
 	requestChannelSends(c, "R-C08-6")
 	c08WatchClosed(c)
@@ -993,4 +994,38 @@ func c08WatchClosed(c *Ctx) {
 	}
 	c.R.Check(n >= 1 && bad == "", "R-C08-7", c.fname(lw)+":closed-channel-is-not-a-change", c.fname(lw), c.pos(lw.Pos()), fmt.Sprintf("%d path(s) returning ErrLinkChange; %s", n, bad),
 		"ErrLinkChange only after a receive with ok == true", "the subscription channel closed at shutdown is taken for a link change: the advertiser stops without its final RA")
+}
+
+// tasksDoNotSchedule: schedgroup panics when a task is scheduled after
+// Group.Wait was called, and schedule() calls Wait as soon as it is told to
+// stop while a task may still be running. A task that schedules another one
+// (a retry, a follow-up) therefore turns a stop request that arrives while it
+// runs into a crash. Structural form: every Delay/Schedule call of the module
+// is made by a named function or by a closure that is only ever called
+// directly — never by a function value (which is what a task is).
+func tasksDoNotSchedule(c *Ctx, rule string) {
+	n := 0
+	for _, fn := range c.srcFuncs() {
+		if fn.Pkg == nil || !strings.HasPrefix(fn.Pkg.Pkg.Path(), Mod) {
+			continue
+		}
+		for _, ci := range an.CallsIn(fn) {
+			fo := an.CalleeObj(ci.Common())
+			if fo == nil || fo.Pkg() == nil || fo.Pkg().Path() != "github.com/mdlayher/schedgroup" || (fo.Name() != "Delay" && fo.Name() != "Schedule") {
+				continue
+			}
+			n++
+			where := ""
+			for g := fn; g.Parent() != nil; g = g.Parent() {
+				if w := usedAsValue(c, g); w != "" {
+					where = c.fname(g) + " is used as a function value in " + w
+					break
+				}
+			}
+			c.R.Check(where == "", rule, c.fname(fn)+":schedules-from-owner", c.fname(fn), c.pos(ci.Pos()), fo.Name()+" called in "+c.fname(fn)+"; "+where,
+				"tasks are scheduled by the function that owns the group (and waits for it), not from inside a function value that may itself run as a task",
+				"a task that re-schedules itself calls Delay after Group.Wait when a stop request arrives while it runs: schedgroup panics instead of a clean stop with a final RA")
+		}
+	}
+	c.R.Check(n >= 2, rule, "corerad:schedule-sites", "", "", fmt.Sprintf("%d Delay/Schedule call site(s)", n), ">= 2", "anchor-missing")
 }
